@@ -216,6 +216,25 @@ def load_findings():
     return json.load(open(p)).get("findings", [])
 
 
+def real_code_panic(stderr):
+    """The harness process died of a Go panic that the harness could not recover (it happened on a goroutine the code under
+    test started).  If the panicking goroutine was running code of lisk-engine - its first frames lie in
+    github.com/LiskHQ/lisk-engine/pkg/... and not in the harness - return (package/function, message); else None."""
+    m = re.search(r"^(panic: .*|fatal error: .*)$", stderr, re.M)
+    if not m:
+        return None
+    rest = stderr[m.end():]
+    g = re.search(r"goroutine \d+ \[running\]:\n((?:.+\n)+?)(?:\n|$)", rest)
+    if not g:
+        return None
+    frames = [l for l in g.group(1).splitlines() if not l.startswith("\t")]
+    frames = [f for f in frames if not f.startswith(("runtime.", "panic(", "runtime/"))]
+    if not frames or "github.com/LiskHQ/lisk-engine/pkg/" not in frames[0] or "verifharness" in frames[0]:
+        return None
+    fn = frames[0].rsplit("(", 1)[0].replace("github.com/LiskHQ/lisk-engine/", "")
+    return fn, m.group(1)
+
+
 def merge_results(a, b):
     """merge two harness result objects: numbers add up, dicts merge recursively, lists concatenate"""
     if a is None:
